@@ -1,4 +1,5 @@
 import PcfgVerif.Properties.LoaderCore
+import PcfgVerif.Lemmas.TrainedFolder
 import PcfgVerif.Lemmas.LoaderWF
 import PcfgVerif.Properties.ProbsCore
 import PcfgVerif.Lemmas.SoftFloatLemmas
@@ -182,5 +183,40 @@ theorem C07_config_sources :
     (Generated.RuleDir.configSources.contains ("Grammar", "names:grammar.txt") &&
       Generated.RuleDir.writerSources.contains ("Grammar", "names:grammar.txt,raw_grammar.txt")) = true := by
   decide
+
+/-- **`_load_from_multiple_files`: the file listed last under a variable is the one that counts** (`Model/LoadMulti.lean`, driven
+against the real function on folders with several files per variable): after a successful load every variable named by a listed file
+holds the content of the last such file, every other variable keeps what it held -/
+theorem C07_last_listed_file_wins {β : Type} (read : String → Option β) (cat : String) (files : List String)
+    (g g' : List (String × β)) (h : LoadMulti.loadMultiple read cat files g = some g') (k : String) :
+    LoadMulti.lookup g' k = match files.reverse.find? (fun f => cat ++ LoadMulti.stem f == k) with
+      | some f => read f
+      | none => LoadMulti.lookup g k :=
+  LoadMulti.loadMultiple_lookup read cat files g g' h k
+
+/-- **a folder the trainer wrote loads into its variables**: the five length-indexed folders are written one file `<n>.txt` per length
+of the counter dict (`save_indexed_counters`: whatever the folder held before is gone), listed in `config.ini` by
+`create_filename_list`, and read back by `_load_from_multiple_files`.  For the counter dict of any training run (one Counter per
+length, `update_keys_nodup`) the load succeeds when every file parses, the variable `<letter><n>` holds exactly the parsed content
+of the file of length n, and no other variable is touched — file names, config list and loader agree for every counter, every previous
+content of the folder and every way of writing a Counter to a file. -/
+theorem C07_trained_folder_loads {γ β : Type} (U : Detect.UEnv) (cfg : Detect.MWCfg) (pws : List CPs) (ch : Char)
+    (field : Trainer.Counters → Detect.LenCtr) (items : Detect.Parsed → List CPs)
+    (hf : ∀ c p, field (c.update p) = Detect.updateLenIndexed (field c) (items p)) (h0 : field {} = [])
+    (content : Detect.MWTable → γ) (parse : γ → Option β)
+    (hparse : ∀ e ∈ field (Trainer.train U cfg pws), (parse (content e.2)).isSome)
+    (old : List (String × γ)) (g0 : List (String × β)) :
+    ∃ g', LoadMulti.loadMultiple
+        (fun fn => (LoadMulti.lookup (RuleDir.saveIndexed (fun n : Nat => toString n) ".txt" old
+          ((field (Trainer.train U cfg pws)).map fun e => (e.1, content e.2))) fn).bind parse)
+        (String.ofList [ch])
+        (RuleDir.filenameList (fun n : Nat => toString n) ".txt" ((field (Trainer.train U cfg pws)).map fun e => (e.1, content e.2)))
+        g0 = some g' ∧
+      (∀ e ∈ field (Trainer.train U cfg pws), LoadMulti.lookup g' (Detect.lbl ch e.1) = parse (content e.2)) ∧
+      (∀ k, (∀ n, Detect.lbl ch n ≠ k) → LoadMulti.lookup g' k = LoadMulti.lookup g0 k) := by
+  refine Trainer.trained_folder_loads ch _ ?_ content parse hparse old g0
+  unfold Trainer.train Trainer.pass2
+  rw [Trainer.pass2_field U cfg _ field items hf, h0, Trainer.foldl_update_flatten]
+  exact Detect.update_keys_nodup [] _ (by simp)
 
 end Pcfg.C07
